@@ -9,6 +9,7 @@ def main():
     ap.add_argument('--replay', default=None)
     a = ap.parse_args()
     seed = int(os.environ.get('VERIF_SEED', '0') or 0)
+    os.environ['VERIF_TIER_NOW'] = a.tier
     try:
         mod = importlib.import_module('harness.' + a.pid.lower())
     except ImportError:
